@@ -29,6 +29,9 @@ type Exec func(spec *run.Spec) *run.Result
 // Loop is the body of a worker: generate or load specs, execute, emit one
 // JSON line per run. It returns the process exit status.
 func Loop(engineName string, exec Exec) int {
+	if os.Getenv("VERIF_DEBUG_EVENTS") != "" {
+		run.DebugEvents = true // the event log of every run goes into Result.Note
+	}
 	var w *bufio.Writer
 	if *FlagOut != "" {
 		f, err := os.Create(*FlagOut)
